@@ -69,8 +69,14 @@ def agree(ctx, rule: str, construct: str, ev: Evaluator, a: T, b: T, hyp: Option
         fa, fb = g.number(a), g.number(b)
     except TooBig:
         raise AnalysisError(f"{construct}: linear value numbering exceeded its term budget")
-    ok = f_key(fa) == f_key(fb)
+    from .gvn import compare_forms
+    verdict = compare_forms(g, fa, fb)
+    ok = verdict != "differ"
     msg = "equal value numbers" + (f" ({what})" if what else "")
+    if verdict == "undecided":
+        msg = "undecided: written with different operations (value numbering does not relate them); no claim"
+        ctx.rep.count("undecided_comparisons")
+        ctx.rep.note(f"{construct}: {msg}")
     if not ok:
         da = {k: v for k, v in fa.items() if fb.get(k) != v}
         db = {k: v for k, v in fb.items() if fa.get(k) != v}
